@@ -19,12 +19,12 @@ seen=[]
 print(' '.join(seen))")
   r=$(tools/seedrun.sh "$d/patch.diff" $props 2>&1 | grep -v WARNING)
   caught=$(echo "$r" | grep -E "^\[C[0-9]+\] rc=1" | sed 's/\] .*//; s/\[//' | tr '\n' ' ')
-  SEED_OUT="$r" python3 - "$d/meta.json" "${TIER:-quick}" "$caught" <<PY
+  SEED_OUT="$r" SEED_AT="verif $(git rev-parse --short HEAD) / repo $(git -C /repo rev-parse --short HEAD)" python3 - "$d/meta.json" "${TIER:-quick}" "$caught" <<PY
 import json,sys,os
 f,tier,caught=sys.argv[1],sys.argv[2],sys.argv[3]
 m=json.load(open(f))
 if tier=='quick':
-    m['caught_by']=caught.split(); m['check_output']=os.environ.get('SEED_OUT','')
+    m['caught_by']=caught.split(); m['check_output']=os.environ.get('SEED_OUT',''); m['evaluated_at']=os.environ.get('SEED_AT','')
 else:
     m['caught_by_thorough']=caught.split(); m['check_output_thorough']=os.environ.get('SEED_OUT','')
 json.dump(m,open(f,'w'),indent=1)
